@@ -48,12 +48,22 @@ func DSLModel(t *rapid.T, o DSLOpts) *Model {
 	for i := 0; i < nT; i++ {
 		c.types = append(c.types, UniqueIdent(t, IdentExtended, o.Rich, usedT, "type"))
 	}
+	if tw := caseTwin(t, c.types, usedT, "typeTwin"); tw != "" {
+		c.types = append(c.types, tw)
+		nT++
+	}
 	if o.Conditions {
 		nC := rapid.IntRange(0, 3).Draw(t, "nConds")
 		usedC := map[string]bool{}
 		for i := 0; i < nC; i++ {
 			m.Conds = append(m.Conds, c.condition(usedC))
 			c.conds = append(c.conds, m.Conds[i].Name)
+		}
+		if tw := caseTwin(t, c.conds, usedC, "condTwin"); tw != "" {
+			cd := c.condition(map[string]bool{})
+			cd.Name = tw
+			m.Conds = append(m.Conds, cd)
+			c.conds = append(c.conds, tw)
 		}
 	}
 	for i := 0; i < nT; i++ {
@@ -63,6 +73,10 @@ func DSLModel(t *rapid.T, o DSLOpts) *Model {
 		c.rels = nil
 		for j := 0; j < nR; j++ {
 			c.rels = append(c.rels, UniqueIdent(t, IdentExtended, o.Rich, usedR, "rel"))
+		}
+		if tw := caseTwin(t, c.rels, usedR, "relTwin"); tw != "" {
+			c.rels = append(c.rels, tw)
+			nR++
 		}
 		for j := 0; j < nR; j++ {
 			c.nThis = 0
@@ -207,8 +221,54 @@ func (c *dslCtx) condition(used map[string]bool) Condition {
 		}
 		cd.Params = append(cd.Params, p)
 	}
+	if tw := caseTwinParam(c.t, cd.Params); tw != nil {
+		cd.Params = append(cd.Params, *tw)
+	}
 	cd.Expr = Expr(c.t, cd.Params, c.o.MultiLine)
+	if rapid.IntRange(0, 14).Draw(c.t, "emptyBody") == 0 {
+		cd.Expr = "" // an empty condition body is a sentence of the grammar
+	}
 	return cd
+}
+
+// caseTwin returns, for one name list in ten, a name that differs from one of the given names only in the case of its
+// first letter ("viewer" / "Viewer"): different names for the library, equal under case folding.
+func caseTwin(t *rapid.T, names []string, used map[string]bool, label string) string {
+	if len(names) == 0 || rapid.IntRange(0, 9).Draw(t, label) != 0 {
+		return ""
+	}
+	n := names[rapid.IntRange(0, len(names)-1).Draw(t, label+"Of")]
+	for i, r := range n {
+		var f string
+		switch {
+		case r >= 'a' && r <= 'z':
+			f = n[:i] + string(r-32) + n[i+1:]
+		case r >= 'A' && r <= 'Z':
+			f = n[:i] + string(r+32) + n[i+1:]
+		default:
+			continue
+		}
+		if used[f] || reservedDefault[f] || reservedCondMode[f] || !singleToken(f) {
+			return ""
+		}
+		used[f] = true
+		return f
+	}
+	return ""
+}
+
+func caseTwinParam(t *rapid.T, ps []Param) *Param {
+	used := map[string]bool{}
+	var names []string
+	for _, p := range ps {
+		used[p.Name] = true
+		names = append(names, p.Name)
+	}
+	tw := caseTwin(t, names, used, "paramTwin")
+	if tw == "" {
+		return nil
+	}
+	return &Param{Name: tw, Type: "int"}
 }
 
 var exprLiterals = []string{
